@@ -366,7 +366,9 @@ def snap_cases(draw):
             samples = draw(st.lists(st.integers(-3, 10), min_size=k, max_size=k))
         else:
             samples = draw(st.lists(val(SAMP, -10, 10), min_size=k, max_size=k))
-        case.update(samples=samples, samples_arr=draw(st.integers(0, 3)) == 0)
+        case.update(samples=samples, samples_arr=draw(st.integers(0, 3)) == 0,
+                    # the sample set is installed afterwards through the decorated function's samples(...) hook
+                    reconfig=draw(st.integers(0, 2)) == 0)
         ss = sorted(set(float(s) for s in samples))
         pool = ss + ss + [(a + b) / 2.0 for a, b in zip(ss[:-1], ss[1:])] + [ss[0] - 1.0, ss[-1] + 0.25] + SNAPV[:9]
     elif dec == 'integers':
@@ -425,6 +427,10 @@ def run_snap(case, ctx):
     index_labels(ctx, case['index'], r, n)
     input_labels(ctx, case)
     fn = d(ident)
+    if dec == 'discrete' and case.get('reconfig'):
+        fn = C.discrete([0.0, 1.0], index=index)(ident)
+        fn.samples(np.array(samples) if case['samples_arr'] else list(samples))
+        ctx.label('discrete:samples-hook')
     out = call(ctx, fn, x0)
     same_len(ctx, out, n, dec)
     o = fl(out)
